@@ -34,6 +34,11 @@ CLAIMED = {
         category="translation_validation", design_ref="§5 C04", engine="S",
         text="Same runs as C03 on a disjoint seed: the solver part decides equivalence over the override values of initializer-inputs (a folded default yields a counterexample v != default); totality (no exception), validity of the result (independent structural checker + onnx.checker, relative to the input) and signature preservation are side verdicts of the enumerated runs, labelled as such.",
         note=S_NOTE + " Side verdicts are enumeration, not solver verdicts.", technique="translation validation with symbolic override values for initializer-inputs; structural side verdicts per run"),
+    "C05": dict(
+        category="translation_validation", design_ref="§5 C05", engine="S",
+        text="For every rule exported by rules.common (48 of 53 encoded) and every host of the rule's families (instances and near-misses over operand ranks 0-3, [1]/[1,1] constants, inverted/eps/almost-1 constants, three constant forms incl. overridable graph inputs, attribute variants, zero-size dims): the single rule is applied with the real RewriteRuleSet; where it fires symonnx interprets host and result and z3 decides equality of all outputs for ALL input values (forward-error bound for recomputed float constants); validity for the declared opset is part of the schema-keyed interpretation.",
+        note=S_NOTE + " rules.fusion (sqrt/trig identities), ConvTranspose/ConvInteger/QLinearConv variants are outside the claim and listed in evidence.",
+        technique="translation validation per rule and host: symbolic ONNX semantics, z3 equivalence for all inputs, onnxruntime replay"),
     "C20": dict(
         category="other", design_ref="§5 C20", engine="X",
         text="CrossHair/z3 symbolic execution of the real save_model_with_external_data with ir.save stubbed: which initializers are uninitialised, path shape, verbose/tqdm and whether the save faults are solver variables; refusal-before-write, single call with <basename>.data, exception propagation and object identity of the initializers are decided over all combinations. Narrow: what onnx_ir.save does per file-system call is outside the claim.",
